@@ -62,6 +62,13 @@ type c25uCase struct {
 	Arg        int    `json:"arg"`
 }
 
+// scaledTrusting is the reference for the scaled trusting period: floor(trusting*newUnbonding/oldUnbonding).
+func scaledTrusting(trusting, oldUnbonding time.Duration, newUnbondingNs int64) time.Duration {
+	q := new(big.Int).Mul(big.NewInt(int64(trusting)), big.NewInt(newUnbondingNs))
+	q.Quo(q, big.NewInt(int64(oldUnbonding)))
+	return time.Duration(q.Int64())
+}
+
 func upgradeStoreGet(w *sim.World, chain int, key []byte, version int64) []byte {
 	if version < 1 {
 		return nil
@@ -305,6 +312,16 @@ func runC25U(outer *testing.T) func(t rapid.TB, c c25uCase, rec *vx.Case) {
 			rec.Class("outcome:rejected")
 			if allowed {
 				rec.Add("allowed_but_rejected", 1)
+				switch {
+				case c.ProofClient != "ok" || c.ProofCons != "ok":
+					rec.Add("allowed_but_rejected/bad-proof", 1)
+				case c.RevMismatch:
+					rec.Add("allowed_but_rejected/revision-mismatch-invalid-client", 1)
+				case shrunk && scaledTrusting(before.TrustingPeriod, before.UnbondingPeriod, c.NewUnbondNs) == 0:
+					rec.Add("allowed_but_rejected/scaled-trusting-period-zero", 1)
+				default:
+					rec.Add("allowed_but_rejected/other", 1)
+				}
 			} else {
 				rec.Add("forbidden_rejected", 1)
 			}
@@ -326,9 +343,7 @@ func runC25U(outer *testing.T) func(t rapid.TB, c c25uCase, rec *vx.Case) {
 			}
 			want := before.TrustingPeriod
 			if shrunk {
-				q := new(big.Int).Mul(big.NewInt(int64(before.TrustingPeriod)), big.NewInt(c.NewUnbondNs))
-				q.Quo(q, big.NewInt(int64(before.UnbondingPeriod)))
-				want = time.Duration(q.Int64())
+				want = scaledTrusting(before.TrustingPeriod, before.UnbondingPeriod, c.NewUnbondNs)
 				rec.Add("upgraded_with_shrunk_unbonding", 1)
 			}
 			if after.TrustingPeriod != want {
@@ -346,7 +361,7 @@ func runC25U(outer *testing.T) func(t rapid.TB, c c25uCase, rec *vx.Case) {
 }
 
 func genC25U(t *rapid.T) c25uCase {
-	pick := func(l string, xs ...string) string { return rapid.SampledFrom(xs).Draw(t, l) }
+	pick := func(l string, xs ...string) string { return xs[upick(t, len(xs), l)] }
 	c := c25uCase{CommitCons: true, ProofClient: "ok", ProofCons: "ok", Submit: "custom", SubmitCons: "committed", ClientPath: "default", NewPath: "default",
 		Arg: rapid.IntRange(0, 9999).Draw(t, "arg")}
 	tl := rapid.SampledFrom([][2]uint64{{1, 3}, {1, 2}, {2, 3}, {3, 4}}).Draw(t, "trust")
